@@ -1,10 +1,16 @@
-(** correspondence for C10, metadata / certificate / readiness endpoints: (id, endpoint, cert_ok, sign_conf, mkey_ok,
-    signer_ok, health_ok, observed kind: 1 metadata unsigned, 2 metadata signed, 3 certificate, 4 ok, 5 error, 6 panic) *)
-From Saml Require Import Base.Bytes Idp.Metadata.
-Definition c10case := (Z * Z * bool * bool * bool * bool * bool * Z)%type.
+(** correspondence for C10, metadata / certificate / readiness endpoints: (id, endpoint, shape of the answer of
+    GetResponseSigningKey, sign_conf, shape of the answer of GetMetadataSigningKey, signer_ok, health_ok, observed kind:
+    1 metadata unsigned, 2 metadata signed, 3 certificate, 4 ok, 5 error, 6 panic).  Whether a key answer is accepted
+    is decided by the guards read off getResponseCert / getMetadataCert (Idp/KeyGuards.v); an empty certificate passes
+    getMetadataCert and makes the signer fail. *)
+From Saml Require Import Base.Bytes Idp.Metadata Idp.KeyGuards.
+Definition c10case := (Z * Z * Z * bool * Z * bool * bool * Z)%type.
 Definition kind_of (r : mreply) : Z := match r with MMetadata false => 1 | MMetadata true => 2 | MCert => 3 | MOk => 4 | MError => 5 end.
 Definition c10_ok (c : c10case) : bool :=
-  let '(_, ep, cert_ok, sign_conf, mkey_ok, signer_ok, health_ok, obs) := c in
+  let '(_, ep, rshape, sign_conf, mshape, signer_ok0, health_ok, obs) := c in
+  let cert_ok := response_cert_ok (keyans_of rshape) in
+  let mkey_ok := metadata_cert_ok (keyans_of mshape) in
+  let signer_ok := signer_ok0 && negb (k_cert_empty (keyans_of mshape)) in
   Z.eqb obs (kind_of (if Z.eqb ep 1 then metadata_handler cert_ok sign_conf mkey_ok signer_ok
                       else if Z.eqb ep 2 then certificate_handler cert_ok else ready_handler health_ok)).
 Definition c10_bad (cs : list c10case) : list Z :=
